@@ -67,6 +67,11 @@ func verifC15_Fanout() {
 		if matching[i] {
 			filter = []string{"a/b", "a/+", "#"}[i]
 		}
+		if verifBool("subscribedBeforeWithAnotherQoS") {
+			// the subscription in force is the latest one
+			b.topicMgr.subscribe([]string{filter}, []byte{1 - subQoS[i]}, ids[i])
+			verifCover("re-subscribed-with-another-qos")
+		}
 		b.topicMgr.subscribe([]string{filter}, []byte{subQoS[i]}, ids[i])
 	}
 	// delivery is independent of which other clients are or were subscribed: another client
